@@ -345,10 +345,11 @@ func (m *FloodSub) handleValidMessage(
 ) {
 	channelID := pktInner.GetChannel()
 	msgId := pkt.ComputeMessageID()
-	if _, ok := m.seenMessages.Get(msgId); ok {
+	// Add inserts only if the ID is not in the cache yet (atomically): exactly one
+	// of several concurrent receivers of the same message goes on.
+	if err := m.seenMessages.Add(msgId, pkt, 0); err != nil {
 		return
 	}
-	m.seenMessages.Set(msgId, pkt, 0)
 
 	pid, err := peer.IDB58Decode(pkt.GetFromPeerId())
 	if err != nil {
